@@ -485,8 +485,10 @@ def verify_case(contract, case, contracts, want_models=True):
             only = getattr(contract, "loop_cases", {}).get(ordn)
             if only is not None and case not in only:
                 continue
+            outer = getattr(contract, "nested", {}).get(ordn)   # (outer ordinal, outer elem case)
+            prefix = [(contract.target, outer[0], outer[1])] if outer else []
             for ec in spec.elem_cases:
-                modes.append((contract.target, ordn, ec))
+                modes.append(prefix + [(contract.target, ordn, ec)])
     out = []
     for mode in modes:
         out.extend(_verify_mode(contract, case, contracts, want_models, mode))
@@ -497,7 +499,7 @@ def _verify_mode(contract, case, contracts, want_models, mode):
     t_start = time.time()
     recs = []
     qual = contract.name
-    label = str(case) if mode is None else f"{case}@loop{mode[1]}[{mode[2]}]"
+    label = str(case) if mode is None else f"{case}@loop{mode[-1][1]}[{mode[-1][2]}]"
     base = dict(function=qual, case=label)
     try:
         fn, paths = explore(contract, case, contracts, loop_mode=mode)
@@ -538,7 +540,7 @@ def _verify_mode(contract, case, contracts, want_models, mode):
         elif out.kind == "return" and mode is not None:
             continue   # a path that left before the loop: covered by mode None
         for name, t, n in ctx.requires:
-            if mode is None or name.startswith(f"loop{mode[1]}:") or not name.startswith("loop"):
+            if mode is None or name.startswith(f"loop{mode[-1][1]}:") or not name.startswith("loop"):
                 clauses.append(("requires:" + name, Sym(S.BOOL, t), n))
         mod = getattr(contract, "modifies", None)
         if mod is not None:
